@@ -37,6 +37,9 @@ def plan(tier, seed):
     for j in range(40):
         out.append({'fam': 'hgrid', 'lo': j * 2500.0, 'hi': (j + 1) * 2500.0, 'i': 200 + j})
     out.append({'fam': 'hbound', 'i': 300})
+    # the small deterministic families once more in a worker running under python -O
+    out += [dict(d, i=d['i'] + 1000, pyopt=True) for d in out if d['fam'] in ('okta2code', 'dtypes', 'range', 'hbound')]
+    out.append({'fam': 'perc', 'lo': 2, 'step': 41, 'M': min(M, 3000), 'i': 1033, 'pyopt': True})
     return out
 
 
